@@ -509,12 +509,19 @@ def block_diagonalize(
             for i, keep in to_keep.items()
         }
 
+        def symbolic_mask(mask, shape):
+            # An all-zero unperturbed block has a scalar diagonal, so its mask is a
+            # numerical 1x1 array even if the perturbation is symbolic.
+            if isinstance(mask, sympy.MatrixBase):
+                return mask
+            return sympy.Matrix(np.broadcast_to(mask, shape) * sympy.S.One)
+
         def diag(x, index):
             x = x[index] if isinstance(x, BlockSeries) else x
             if index[0] not in to_keep:
                 return x
             if isinstance(x, sympy.MatrixBase):
-                return x.multiply_elementwise(to_keep[index[0]])
+                return x.multiply_elementwise(symbolic_mask(to_keep[index[0]], x.shape))
             if sparse.issparse(x):
                 return x.multiply(to_keep[index[0]])
             return x * to_keep[index[0]]
@@ -524,7 +531,9 @@ def block_diagonalize(
                 return zero
             x = x[index] if isinstance(x, BlockSeries) else x
             if isinstance(x, sympy.MatrixBase):
-                return x.multiply_elementwise(to_eliminate[index[0]])
+                return x.multiply_elementwise(
+                    symbolic_mask(to_eliminate[index[0]], x.shape)
+                )
             if sparse.issparse(x):
                 return x.multiply(to_eliminate[index[0]])
             return x * to_eliminate[index[0]]
@@ -952,7 +961,12 @@ def solve_sylvester_diagonal(
             array_eigs_a = np.array(eigs_A, dtype=object)  # Use numpy to reshape
             array_eigs_b = np.array(eigs_B, dtype=object)
             energy_denominators = sympy.Matrix(
-                np.resize(1 / (array_eigs_a.reshape(-1, 1) - array_eigs_b), Y.shape)
+                # The eigenvalues of an all-zero block are a scalar integer zero: use a
+                # sympy numerator and broadcast (np.resize would scramble the rows).
+                np.broadcast_to(
+                    sympy.S.One / (array_eigs_a.reshape(-1, 1) - array_eigs_b),
+                    Y.shape,
+                )
             ).subs(sympy.zoo, sympy.S.Zero)  # Take care of diagonal elements
             return energy_denominators.multiply_elementwise(Y)
         raise TypeError(f"Unsupported rhs type: {type(Y)}")
